@@ -6,7 +6,7 @@ import (
 
 // C01 Exactly-once completion of every asynchronous operation.
 
-var c01Kinds = []lKind{lkConnDial, lkConnAcc, lkAdapter, lkFifoR, lkFifoW, lkRegular, lkListener, lkPacket}
+var c01Kinds = []lKind{lkConnDial, lkConnAcc, lkAdapter, lkFifoR, lkFifoW, lkRegular, lkListener, lkPacket, lkPeer}
 
 func init() {
 	Register("C01", &Scenario{Name: "mix-random", Weight: 10, Run: func(c *Ctx, v int) { runC01(c, -1) }})
@@ -113,7 +113,7 @@ func (d *c01) peerAct(o *lObj) {
 	case lkListener:
 		d.peerConnect(o)
 		return
-	case lkPacket:
+	case lkPacket, lkPeer:
 		d.peerDatagram(o, w.Pick(8, 1, 100, 1400))
 		return
 	case lkRegular:
@@ -133,10 +133,10 @@ func (d *c01) peerAct(o *lObj) {
 	}
 }
 
-const c01DirectedKinds = 6
+const c01DirectedKinds = 7
 const c01DirectedCount = c01DirectedKinds * c01DirectedKinds * 3 * 2
 
-var c01DirKinds = [c01DirectedKinds]lKind{lkConnDial, lkFifoR, lkListener, lkPacket, lkAdapter, lkConnAcc}
+var c01DirKinds = [c01DirectedKinds]lKind{lkConnDial, lkFifoR, lkListener, lkPacket, lkAdapter, lkConnAcc, lkPeer}
 
 func runC01(c *Ctx, variant int) {
 	w := c.W
@@ -202,13 +202,15 @@ func (d *c01) directed(v int) {
 	b := d.addObj(kb)
 	behA := []int{5, 6, 7}[act]
 	d.startRead(a, false, 32, behA)
-	d.startRead(b, false, 32, 0)
+	if d.canRead(b) {
+		d.startRead(b, false, 32, 0)
+	}
 	// make both ready before the poll
 	for _, o := range []*lObj{a, b} {
 		switch o.kind {
 		case lkListener:
 			d.peerConnect(o)
-		case lkPacket:
+		case lkPacket, lkPeer:
 			d.peerDatagram(o, 16)
 		default:
 			d.peerSend(o, 16)
